@@ -329,7 +329,7 @@ class cisco_type7(uh.GenericHandler):
             # NOTE: str.upper() maps some non-ascii characters onto ascii ones ("\ufb00" -> "FF"),
             #       and int() reads non-ascii digits
             raise uh.exc.MalformedHashError(cls)
-        salt = int(hash[:2])  # may throw ValueError
+        salt = uh.ascii_int(hash[:2])  # may throw ValueError
         return cls(salt=salt, checksum=hash[2:].upper())
 
     def __init__(self, salt=None, **kwds):
